@@ -24,7 +24,8 @@ NodeTypeOf(l) == CASE l = "user" -> "type" [] l = "user:*" -> "wildcard" [] l = 
 Kinds == {"direct", "rewrite", "ttu", "computed"}
 Tuplesets == {"", "doc#p"}
 Conds == {"", "c1", "c2"}
-CondLists == {<<>>, <<"c1">>, <<"c2", "c1">>}      \* duplicate free: AddEdge stores what it is given
+\* AddEdge stores what it is given (a copy of it), also a list that names a condition twice - next to itself or apart
+CondLists == {<<>>, <<"c1">>, <<"c2", "c1">>, <<"c1", "c1">>, <<"c2", "c2", "c1">>, <<"c1", "c2", "c1">>}
 NoCond == "none"
 
 VARIABLES nodes,      \* [label -> [nt, wc]] for the labels added so far
@@ -110,9 +111,17 @@ SimSpec == Init /\ [][SimNext]_vars
 (***************************************************************************)
 (* Design-level properties of the API (checked in every simulated state)   *)
 (***************************************************************************)
-\* condition lists never hold a name twice and are never empty
-CondListsAreOrderedSets == \A l \in DOMAIN edges : \A i \in DOMAIN edges[l] :
-   LET cs == edges[l][i].conds IN Len(cs) > 0 /\ \A a, b \in DOMAIN cs : a # b => cs[a] # cs[b]
+\* condition lists are never empty; UpsertEdge keeps them sets in the sense that it appends a condition only where the list does not
+\* hold it yet, one at a time, and a list it starts has one element (what AddEdge was given stays as it was given)
+CondListsNeverEmpty == \A l \in DOMAIN edges : \A i \in DOMAIN edges[l] : Len(edges[l][i].conds) > 0
+RangeOf(q) == { q[k] : k \in DOMAIN q }
+UpsertAddsNoDuplicate ==
+  [][(Len(hist') > Len(hist) /\ hist'[Len(hist')].op = "UpsertEdge") =>
+       \A l \in DOMAIN edges' : \A i \in DOMAIN edges'[l] :
+          IF l \in DOMAIN edges /\ i \in DOMAIN edges[l]
+          THEN LET a == edges[l][i].conds b == edges'[l][i].conds
+               IN b = a \/ (Len(b) = Len(a) + 1 /\ SubSeq(b, 1, Len(a)) = a /\ b[Len(b)] \notin RangeOf(a))
+          ELSE Len(edges'[l][i].conds) = 1]_vars
 \* every edge starts and ends at a node that was added
 EdgesBetweenNodes == \A l \in DOMAIN edges : l \in DOMAIN nodes /\ \A i \in DOMAIN edges[l] : edges[l][i].to \in DOMAIN nodes
 \* a wildcard node is born with its own type as public type
